@@ -566,7 +566,7 @@ func genFloatsSpan(g *vlib.G) {
 					}
 					// "The first element of the destination is l, the final element of the destination is u."
 					if w[0] != l || w[n-1] != u {
-						t.FailClass("span-endpoint-inexact", "Span(%d,%v,%v): first=%v last=%v, documented to be exactly l and u", n, l, u, w[0], w[n-1])
+						classed(t, "span-endpoint-inexact", fmt.Sprintf("l=%v u=%v", l, u), "Span(%d,%v,%v): first=%v last=%v, documented to be exactly l and u", n, l, u, w[0], w[n-1])
 					}
 				}
 			}
@@ -619,7 +619,7 @@ func genFloatsSpan(g *vlib.G) {
 					}
 					// "The first element of the resulting dst will be l and the final element of dst will be u."
 					if w[0] != l || w[n-1] != u {
-						t.FailClass("logspan-endpoint-inexact", "LogSpan(%d,%v,%v): first=%v last=%v, documented to be l and u", n, l, u, w[0], w[n-1])
+						classed(t, "logspan-endpoint-inexact", fmt.Sprintf("l=%v u=%v", l, u), "LogSpan(%d,%v,%v): first=%v last=%v, documented to be l and u", n, l, u, w[0], w[n-1])
 					}
 				}
 			}
